@@ -681,15 +681,23 @@ func (e *Exec) next(s *State, f *Frame, in *ssa.Next) Value {
 	tup := in.Type().(*types.Tuple)
 	if in.IsString {
 		sv := it.x.(*StringV)
-		// iterator position is a havoc-able cell: model position as fresh bounded value each Next
-		pos := e.c.Fresh("rpos", SBV(64))
-		okT := e.c.Fresh("rok", SBool)
-		s.assume(e.c.Implies(okT, e.c.ULt(pos, sv.Len)))
-		b := e.c.Select(sv.Arr, e.c.Add(sv.Off, pos))
-		r := e.c.Fresh("rune", SBV(32))
-		// ASCII-gated rune model: byte < 0x80 => rune = byte; else rune is >= 0x80 (or RuneError)
-		s.assume(e.c.Ite(e.c.ULt(b, BVConst(0x80, 8)), e.c.Eq(r, e.c.ZExt(b, 32)), e.c.ULe(BVConst(0x80, 32), r)))
-		e.note("range over string: positions are unordered samples; rune = byte when byte < 0x80, else unconstrained >= 0x80")
+		c := e.c
+		// sequential iteration: the hidden cell holds the byte position of the next rune. A byte < 0x80 is
+		// the rune itself and has width 1; otherwise the rune is some value >= 0x80 of width 1..4
+		// (sound over-approximation of UTF-8 decoding, exact for ASCII).
+		ref := &Ref{Obj: it.obj}
+		pos := e.load(s, ref).(*Term)
+		okT := c.ULt(pos, sv.Len)
+		b := c.Select(sv.Arr, c.Add(sv.Off, pos))
+		r := c.Fresh("rune", SBV(32))
+		w := c.Fresh("runew", SBV(64))
+		ascii := c.ULt(b, BVConst(0x80, 8))
+		s.axiom(c.Ite(ascii, c.And(c.Eq(r, c.ZExt(b, 32)), c.Eq(w, BVConst(1, 64))),
+			c.And(c.ULe(BVConst(0x80, 32), r), c.ULe(r, BVConst(0x10FFFF, 32)), c.ULe(BVConst(1, 64), w), c.ULe(w, BVConst(4, 64)))))
+		// in bounds: the width never runs past the end of the string
+		s.axiom(c.Implies(okT, c.ULe(c.Add(pos, w), sv.Len)))
+		e.store(s, ref, c.Ite(okT, c.Add(pos, w), pos))
+		e.note("range over string: exact for bytes < 0x80; a byte >= 0x80 starts a rune >= 0x80 of width 1..4")
 		return TupleV{okT, pos, r}
 	}
 	// map iteration: unconstrained
